@@ -9,7 +9,7 @@ import random
 ELECTION_ID = "2099-11-03_USA_G"
 
 CLASSES = ["urban", "suburban", "rural"]
-STATE_POOL = ["AA", "BB", "CC", "DD"]
+STATE_POOL = ["AA", "BB", "CC", "DD", "EE", "FF", "GG", "HH", "JJ", "KK"]
 # district ids deliberately contain prefix pairs ("1" / "10")
 DISTRICT_POOL = ["1", "10", "2", "3"]
 
